@@ -1207,19 +1207,17 @@ class _SetIndexPost(Blockwise):
         return df
 
     def _get_culled_divisions(self, divisions):
+        # A partition selection is pushed into the shuffle that feeds us
+        shuffles = [
+            e for e in self.frame.find_operations(SimpleShuffle) if e._filtered
+        ]
+        if len(shuffles) > 0 and len(divisions) - 1 == shuffles[0].npartitions_out:
+            from dask_expr._expr import _divisions_of_selection
+
+            # (a reordered or repeated selection has no valid divisions)
+            return _divisions_of_selection(tuple(divisions), shuffles[0]._partitions)
         if self.frame.npartitions < len(divisions) - 1:
-            part_filter = list(self.frame.find_operations(PartitionsFiltered))
-            if len(part_filter) > 0:
-                return tuple(
-                    [
-                        div
-                        for i, div in enumerate(divisions)
-                        if i in part_filter[0]._partitions
-                    ]
-                    + [divisions[-1]]
-                )
-            else:
-                return self.frame.divisions
+            return self.frame.divisions
 
         return divisions
 
